@@ -25,6 +25,8 @@ import (
 	"github.com/openGemini/openGemini/engine/hybridqp"
 	"github.com/openGemini/openGemini/lib/util/lifted/influx/influxql"
 	"github.com/openGemini/openGemini/lib/util/lifted/influx/query"
+	internal "github.com/openGemini/openGemini/lib/util/lifted/influx/query/proto"
+	"google.golang.org/protobuf/proto"
 	"verifharness/internal/gen"
 )
 
@@ -275,12 +277,38 @@ func safeParse(s string) (e influxql.Expr, err error) {
 			e, err = nil, fmt.Errorf("panic: %v", r)
 		}
 	}()
+	// the parser object comes from a pool and its scanner keeps the "split identifiers at dots" mode of its previous
+	// use (finding C12-source-dotted-scanner-state): put it into the mode a new scanner starts in, so that a case
+	// does not depend on the cases before it
+	_, _ = influxql.ParseSortFields("a DESC")
 	return influxql.ParseExpr(s)
+}
+
+// shippedText: the text the sql node really puts on the wire for a condition (ProcessorOptions.MarshalBinary ->
+// protobuf field Condition); it is e.String() today, a repaired tree may print it differently on the shipping path only
+func shippedText(e influxql.Expr) (txt string, ok bool) {
+	defer func() {
+		if r := recover(); r != nil {
+			txt, ok = "", false
+		}
+	}()
+	buf, err := (&query.ProcessorOptions{Condition: e}).MarshalBinary()
+	if err != nil {
+		return "", false
+	}
+	pb := &internal.ProcessorOptions{}
+	if err := proto.Unmarshal(buf, pb); err != nil {
+		return "", false
+	}
+	return pb.GetCondition(), true
 }
 
 func roundtrip(c *Case, e influxql.Expr) {
 	c.E = dump(e)
 	s := e.String()
+	if st, ok := shippedText(e); ok {
+		s = st
+	}
 	c.Printed, c.PText = runes(s), s
 	re, err := safeParse(s)
 	if err != nil {
